@@ -9,6 +9,7 @@ pub mod c02;
 pub mod c03;
 pub mod c04;
 pub mod c05;
+pub mod c05e;
 pub mod c05n;
 pub mod c06;
 pub mod c07;
